@@ -155,6 +155,12 @@ impl crate::fdl::FdlApplication for DpScanner {
             } else {
                 Some(DpScanEvent::PeripheralRequery(desc))
             }
+        } else if !station_unknown {
+            // Whatever answers at this address now, it is no longer the DP peripheral we know: it
+            // does not deliver valid diagnostics anymore.
+            log::debug!("Lost peripheral #{} (no valid diagnostics anymore).", address);
+            self.stations.set(usize::from(address), false);
+            Some(DpScanEvent::PeripheralLost(address))
         } else {
             None
         };
